@@ -32,6 +32,7 @@
   and the theorem is vacuous for it.  Thick interval constants have no point value either.
 -/
 import IbexProofs.EvalCert
+import IbexProofs.SetAlg
 
 namespace Ibex.C02
 open Ibex Ibex.Eval
@@ -397,5 +398,26 @@ example (x : ℝ) (hx : x ∈ Itv.mk (.fin 0) (.fin 2))
   simp only [Mat.scalar, sc] at hd
   cases hd with
   | cons h _ => exact h
+
+
+/-! ### expressions with elementary functions (workloads `c02t`, `c08t`, `c12t`, `c04t`)
+
+The harness computes a rigorous enclosure `o` of the real value (of the derivative) at a point of the box with MPFR
+interval arithmetic; the driver reports a violation exactly when `o` and the result `z` of the library are disjoint.
+What this refutes, for the TRUE value `v` (known only through `v ∈ o`): -/
+
+/-- a value enclosed by the oracle cannot belong to a result that is disjoint from the oracle's enclosure -/
+theorem oracle_refutes {o z : Itv} (h : (Itv.inter o z).isEmpty = true) {v : ℝ} (hv : v ∈ o) : ¬ v ∈ z := by
+  intro hz
+  have hm : v ∈ Itv.inter o z := Itv.mem_inter.2 ⟨hv, hz⟩
+  cases hi : Itv.inter o z with
+  | empty => rw [hi] at hm; exact Itv.not_mem_empty v hm
+  | mk a b => rw [hi] at h; simp [Itv.isEmpty] at h
+
+/-- and an enclosure of the oracle inside the result proves membership -/
+theorem oracle_confirms {o z : Itv} (h : Itv.subset o z = true) {v : ℝ} (hv : v ∈ o) : v ∈ z :=
+  Itv.mem_of_subset h hv
+
+example : (Itv.inter (.mk (.fin 1) (.fin 2)) (.mk (.fin 3) (.fin 4))).isEmpty = true := by decide
 
 end Ibex.C02
